@@ -317,7 +317,7 @@ func init() {
 		Rule: "seeded cases: kill before start / while pending / running / in retry back-off / after completion (kill timestamps now or in the future), pending-timeout and force-delete settings at Job and config level incl. 0 and unset, Pods that never get scheduled, terminate promptly / late / never, forbidTaskForceDeletion; every Pod delete request of a controller is judged (justified or not), fixpoint after all deadlines; " +
 			"non-trivial = at least one controller Pod delete request; distinct = distinct abstract trace",
 		Assume:   []string{"no periodic resync: a deadline whose deferred re-sync is never armed shows as a stuck Job at the fixpoint"},
-		EvalKeys: []string{"C12", "C12_fix", "C12_quiescent"},
+		EvalKeys: []string{"C12", "C12_fix", "C12_quiescent", "C12_pending"},
 		Build: func(env *core.Env, i int, r *rand.Rand) simCase {
 			o := baseOptions(env, i, r)
 			o.Kubelet = sim.KubeletOptions{FailRate: 35, NeverSched: 4, LateDie: 4, NeverDie: 4, Flap: 8, ExitOnDelete: 3, MaxRun: 40, SlowStart: 4, Sidecar: 5}
